@@ -55,6 +55,7 @@ typedef struct {
     uint64_t max_steps;              /* scheduler decisions budget */
     /* allocator */
     uint64_t junk_seed;
+    uint64_t unusual_seed;           /* cooperative unusual-branch points: 0 = never; else side = f(seed, site, key) - the same for every run of a job */
     int      junk_on;
     long     alloc_fail_at;          /* k-th kalign allocation returns NULL (-1 off) */
     /* clock */
@@ -108,6 +109,7 @@ enum {
     PR_FS_READS, PR_FS_SHORT_READS, PR_FS_READ_FAULTS, PR_FS_OPEN_FAULTS, PR_FS_STAT_FAULTS, PR_FS_WRITES,
     PR_FS_WRITE_FAULTS,
     PR_CLOCK_READS, PR_ALLOCS, PR_ALLOC_FAILS, PR_JUNK_BYTES,
+    PR_UNUSUAL_TAKEN,          /* cooperative unusual-branch points that took the unusual side */
     PR_C10_ROWS_CHECKED,       /* nodes whose snapshot was compared with the rows finally handed out */
     PR__N
 };
